@@ -13,6 +13,7 @@ import (
 	"encoding/hex"
 	"encoding/json"
 	"fmt"
+	"math/big"
 	"math/rand"
 	"net/url"
 	"os"
@@ -345,7 +346,7 @@ func main() {
 		return
 	}
 	run := report.New("C20", "exploration")
-	run.Rule("(A) a child process running the checker over hostile location strings (path traversal, encoded separators, NUL, backslashes, 4 KiB paths, unicode, query/fragment, mixed schemes; configured files with awkward names) incl. loads, refreshes, failures, restart and cleanup is traced with strace -f -y; every successful mutating path syscall must resolve inside work_dir (or the child's report directory), decoy siblings and inputs must hash the same before and after; (B) one store directory per distinct location, and after a restart the same directories with zero origin hits; (C) histories over {load ok, load fail (garbage, HTTP 500, bad signature), refresh ok, refresh fail, restart with planted crl_*_tmp leftovers, retry of a location whose first load failed} with foreign files present: after every event no crl_*_tmp entry, no live store lost, foreign files intact; (C)(D)(E) run with work_dir spelt in five ways (plain, trailing slash, dot segment, doubled slash, symbolic link); (D) k provision/cleanup cycles: no goroutine with a repository frame, no descriptor under work_dir, work_dir can be provisioned again, counts constant. non-trivial = sub-check that observed at least one mutating syscall / store directory / event; distinct = sub-check descriptor")
+	run.Rule("(A) a child process running the checker over hostile location strings (path traversal, encoded separators, NUL, backslashes, 4 KiB paths, unicode, query/fragment, mixed schemes; configured files with awkward names) incl. loads, refreshes, failures, restart and cleanup is traced with strace -f -y; every successful mutating path syscall must resolve inside work_dir (or the child's report directory), decoy siblings and inputs must hash the same before and after; (B) one store directory per distinct location, and after a restart the same directories with zero origin hits; (C) histories over {load ok, load fail (garbage, HTTP 500, bad signature), refresh ok, refresh fail, refresh with an older list / the same bytes, restart with planted crl_*_tmp leftovers, retry of a location whose first load failed} with foreign files present: after every event no crl_*_tmp entry, no live store lost, foreign files intact; (C)(D)(E) run with work_dir spelt in five ways (plain, trailing slash, dot segment, doubled slash, symbolic link); (D) k provision/cleanup cycles: no goroutine with a repository frame, no descriptor under work_dir, work_dir can be provisioned again, counts constant. non-trivial = sub-check that observed at least one mutating syscall / store directory / event; distinct = sub-check descriptor")
 	run.Assume("strace sees every path syscall of the traced process tree (-f) with resolved descriptors (-y)", "after Cleanup goroutines are given up to 3 s to drain before they count as leaked")
 	scratch, _ := report.Scratch("C20")
 	bin := os.Getenv("VERIF_ENGINE_BIN_NORACE")
@@ -509,7 +510,7 @@ func main() {
 	// (C) lifecycle histories
 	// "retry-failed-location": a location whose first load failed earlier is healthy now and lists the
 	// certificate that asks for it
-	events := []string{"load-ok", "load-garbage", "load-http500", "load-badsig", "refresh-ok", "refresh-garbage", "refresh-badsig", "restart-with-leftovers", "retry-failed-location", "retry-failed-location"}
+	events := []string{"load-ok", "load-garbage", "load-http500", "load-badsig", "refresh-ok", "refresh-garbage", "refresh-badsig", "refresh-older", "refresh-same", "restart-with-leftovers", "retry-failed-location", "retry-failed-location"}
 	nh := 60
 	if run.Thorough() {
 		nh = 600
@@ -623,6 +624,15 @@ func main() {
 						d := good(18)
 						d[len(d)-1] ^= 1
 						w.CRL.Set(p, origin.Good(d))
+					case "refresh-older":
+						// a mirror that lags behind: a genuine list with an earlier thisUpdate and a lower number
+						sp := gen.SpecFor(w.Int, gen.Entries(rng, gen.Opts{N: 9, SerialWidth: 8}))
+						sp.ThisUpdate = gen.BaseTime.Add(-72 * time.Hour)
+						sp.NextUpdate = gen.BaseTime.Add(-48 * time.Hour)
+						sp.Exts = [][]byte{crlgen.AKIKeyID(w.Int.Cert.SubjectKeyId), crlgen.CRLNumberExt(big.NewInt(1))}
+						w.CRL.Set(p, origin.Good(sp.Build(w.Int.Key).DER))
+					case "refresh-same":
+						// nothing new was published: the bytes in force are served again
 					}
 				}
 				chk.Refresh()
